@@ -218,7 +218,8 @@ def run_world(subject, world, log=None):
         attempts = 2 if failure else 1
         result = None
         try:
-            with dask.config.set(scheduler=_failing(schedmod.dask_get(sch, world.get("pool", 4), world.get("fail_fast", True)), failure, sch, stats)):
+            # `num_workers` is how a user sizes dask's pool; the simulated pool has the same size
+            with dask.config.set(scheduler=_failing(schedmod.dask_get(sch, world.get("pool", 4), world.get("fail_fast", True)), failure, sch, stats), num_workers=world.get("pool", 4)):
                 for attempt in range(attempts):
                     interfere("before_config") if attempt == 0 else None
                     cfg_fields = dict(subject["config"])
